@@ -4,6 +4,8 @@ import (
 	"fmt"
 	"reflect"
 	"sort"
+
+	yaml "gopkg.in/yaml.v2"
 )
 
 // Sort any []any value.
@@ -56,9 +58,27 @@ func (s sortableByProperty) Less(i, j int) bool {
 	index := func(i int) any {
 		value := ToLiquid(s.data[i])
 		rt := reflect.ValueOf(value)
-		if rt.Kind() == reflect.Map && rt.Type().Key().Kind() == reflect.String {
-			// the key type may be a named string type
-			elem := rt.MapIndex(reflect.ValueOf(s.key).Convert(rt.Type().Key()))
+		if ms, ok := value.(yaml.MapSlice); ok {
+			// an ordered map
+			for _, item := range ms {
+				if item.Key == s.key {
+					return item.Value
+				}
+			}
+			return nil
+		}
+		if rt.Kind() == reflect.Map {
+			var elem reflect.Value
+			switch rt.Type().Key().Kind() {
+			case reflect.String:
+				// the key type may be a named string type
+				elem = rt.MapIndex(reflect.ValueOf(s.key).Convert(rt.Type().Key()))
+			case reflect.Interface:
+				// a map[any]any, as YAML decoding produces
+				if k := reflect.ValueOf(s.key); k.Type().AssignableTo(rt.Type().Key()) {
+					elem = rt.MapIndex(k)
+				}
+			}
 			if elem.IsValid() {
 				return elem.Interface()
 			}
